@@ -51,21 +51,45 @@ func evalCond(e ast.Expr, sync, state string) (val bool, ok bool) {
 				return a || b, true
 			}
 			return a && b, true
-		case token.EQL, token.NEQ:
+		case token.EQL, token.NEQ, token.LSS, token.LEQ, token.GTR, token.GEQ:
 			lhs, rhs := exprString(x.X), exprString(x.Y)
 			var actual, want string
+			var order []string
 			switch {
 			case strings.HasSuffix(lhs, ".Synchronicity") && strings.HasPrefix(rhs, "configapi.TransactionStrategy_"):
-				actual, want = sync, strings.TrimPrefix(rhs, "configapi.TransactionStrategy_")
+				actual, want, order = sync, strings.TrimPrefix(rhs, "configapi.TransactionStrategy_"), txSyncs
 			case strings.HasSuffix(lhs, ".Status.State") && strings.HasPrefix(rhs, "configapi.TransactionStatus_"):
-				actual, want = state, strings.TrimPrefix(rhs, "configapi.TransactionStatus_")
+				actual, want, order = state, strings.TrimPrefix(rhs, "configapi.TransactionStatus_"), txStates
 			default:
 				return false, false
 			}
-			if x.Op == token.EQL {
-				return actual == want, true
+			// the enumerations' numeric order is the order of the lists above
+			ia, iw := -1, -1
+			for i, n := range order {
+				if n == actual {
+					ia = i
+				}
+				if n == want {
+					iw = i
+				}
 			}
-			return actual != want, true
+			if ia < 0 || iw < 0 {
+				return false, false
+			}
+			switch x.Op {
+			case token.EQL:
+				return ia == iw, true
+			case token.NEQ:
+				return ia != iw, true
+			case token.LSS:
+				return ia < iw, true
+			case token.LEQ:
+				return ia <= iw, true
+			case token.GTR:
+				return ia > iw, true
+			default:
+				return ia >= iw, true
+			}
 		}
 	}
 	return false, false
